@@ -65,6 +65,7 @@ struct RegDump {
     mutation: String,
     ftype: Vec<((String, String), String)>,
     implements: Vec<(String, Vec<String>)>,
+    unions: Vec<(String, Vec<String>)>,
     args: Vec<((String, String), Vec<(String, Option<String>)>)>,
 }
 
@@ -120,6 +121,12 @@ fn dump_registry(r: &Registry) -> RegDump {
     for k in names {
         let fs = match &r.types[k] {
             MetaType::Object { fields, .. } | MetaType::Interface { fields, .. } => fields,
+            MetaType::Union { possible_types, .. } => {
+                let mut p: Vec<String> = possible_types.iter().cloned().collect();
+                p.sort();
+                d.unions.push((k.clone(), p));
+                continue;
+            }
             _ => continue,
         };
         for (fname, f) in fs.iter() {
@@ -917,11 +924,12 @@ fn g_regdump(it: &mut Interner, d: &RegDump) -> String {
         g_const(it, &Value::from_json(j).unwrap_or(Value::Null))
     };
     format!(
-        "{{| ls_query := {}; ls_mutation := {}; ls_ftype := {}; ls_impl := {}; ls_args := {}; ls_voc_all := {}; ls_voc_comp := {}; ls_voc_last := {} |}}",
+        "{{| ls_query := {}; ls_mutation := {}; ls_ftype := {}; ls_impl := {}; ls_unions := {}; ls_args := {}; ls_voc_all := {}; ls_voc_comp := {}; ls_voc_last := {} |}}",
         it.n(&d.query),
         it.n(&d.mutation),
         g_list(d.ftype.iter(), |((c, f), t)| format!("(({}, {}), {})", it.n(c), it.n(f), it.n(t))),
         g_list(d.implements.iter(), |(o, l)| format!("({}, {})", it.n(o), g_list(l.iter(), |i| it.n(i)))),
+        g_list(d.unions.iter(), |(o, l)| format!("({}, {})", it.n(o), g_list(l.iter(), |i| it.n(i)))),
         g_list(d.args.iter(), |((c, f), l)| format!(
             "(({}, {}), {})",
             it.n(c),
@@ -943,6 +951,7 @@ fn count_nodes(n: &[TNode]) -> usize {
 }
 
 struct Stats {
+    not_nested: usize,
     rejected: usize,
     errored: usize,
     emitted: usize,
@@ -979,6 +988,7 @@ fn run_case(schema: &Schema<Query, Mutation, EmptySubscription>, it: &mut Intern
     let exists_ok = events.iter().all(|e| e.exists_ok);
     let nev = events.len();
     let Some(forest) = build(events) else {
+        st.not_nested += 1;
         writeln!(out, "SKIP\t1\t{{\"text\":{}}}", jstr(&format!("log not well nested: {text}"))).unwrap();
         return false;
     };
@@ -1022,7 +1032,7 @@ fn main() {
     // Fast validation: only fragment cycles are rejected
     let schema_fast = Schema::build(Query, Mutation, EmptySubscription).directive(tag).validation_mode(ValidationMode::Fast).finish();
     let schema_ext = Schema::build(Query, Mutation, EmptySubscription).directive(tag).extension(extensions::Analyzer).finish();
-    let mut st = Stats { rejected: 0, errored: 0, emitted: 0 };
+    let mut st = Stats { not_nested: 0, rejected: 0, errored: 0, emitted: 0 };
 
     // registry dump through a first request
     let _ = block_on(schema.execute("{ val }"));
@@ -1106,5 +1116,10 @@ fn main() {
     writeln!(out, "STATS\t0\t{{\"text\":\"emitted={} rejected_by_validation={} execution_errors={} attempts={}\"}}", st.emitted, st.rejected, st.errored, attempts).unwrap();
     writeln!(out, "NAMES\t\t{}", serde_json::to_string(&it.names).unwrap()).unwrap();
     std::fs::write(format!("{}/c22.cases", a.out), out).unwrap();
-    eprintln!("c22: emitted={} rejected={} errored={} attempts={}", st.emitted, st.rejected, st.errored, attempts);
+    eprintln!("c22: emitted={} rejected={} errored={} not_nested={} attempts={}", st.emitted, st.rejected, st.errored, st.not_nested, attempts);
+    // a run that could not observe the executor must not pass silently
+    if st.not_nested > 0 || st.errored * 10 > st.emitted || st.emitted < a.n.min(corpus.len()) {
+        eprintln!("c22: the resolver log could not be turned into invocation trees (not_nested={}, errored={}, emitted={})", st.not_nested, st.errored, st.emitted);
+        std::process::exit(2);
+    }
 }
